@@ -8,13 +8,13 @@ TB_A = ("Trusted: Coq 8.16.1 kernel (+vm_compute); Flocq; stdlib real axioms sig
         "Python harness/generators); Tables.v regenerated from the live module each run; CPython int semantics.")
 
 CHECKS = {
- "C01": dict(level="proof", engine="A", technique="Coq proof (pure Z, axiom-free) of canonicity of normalize/normalize1/from_man_exp and closure of add/sub/mul/div/sqrt/pos/neg/abs + uniqueness; extracted-model correspondence; canonicity sweep",
+ "C01": dict(level="proof", engine="A", technique="Coq proof (pure Z, axiom-free) of canonicity of normalize/normalize1/from_man_exp and closure of add/sub/mul/div/sqrt/pos/neg/abs/floor/ceil/nint/frac/mod/pow_int + uniqueness; extracted-model correspondence; canonicity sweep",
    text="Universal theorems (all mantissas, exponents, precisions, modes) on the Gallina model of libmpf that every modelled operation returns a canonical tuple and that canonical tuples are unique per value; the model is tied to /repo by running the extracted model against the live code on boundary-directed cases, and every tuple any call returns (raw, operators, ~150 public functions, interval endpoints) is checked canonical.",
    note=TB_A + " Not proved: canonicity of values produced by routines outside the model (observed by the sweep only)."),
  "C02": dict(level="proof", engine="A", technique="Coq/Flocq proof that normalize = round radix2 (FLX_exp p) in all five modes, lifted to from_int/from_man_exp/pos/neg/abs/mul; correspondence of add/sub/div/sqrt/mul_int/rdiv_int/from_rational/fsum and public operators against the extracted model and an exact-rational oracle",
-   text="normalize/normalize1 are proved to return exactly Flocq's FLX rounding of the exact value for every input, precision and mode; conversions, unary ops and multiplication are corollaries. Addition, division, square root, fsum and the public operator/keyword glue are covered by the model correspondence plus an exact-rational correct-rounding oracle on directed cases (theorems for them are in progress and listed in DESIGN.md).",
+   text="normalize/normalize1 are proved to return exactly Flocq's FLX rounding of the exact value for every input, precision and mode; conversions, unary ops and multiplication are corollaries. Addition/subtraction (including the far-apart-exponent shortcut), division, square root, from_rational and fsum (one exact integer accumulation and a single rounding, for lists of any length whose exponents lie within the 2*prec-bit window the routine keeps exact) have their own theorems (sticky-bit lemma); the public operator/keyword glue is covered by the model correspondence plus an exact-rational correct-rounding oracle on directed cases.",
    note=TB_A),
- "C10": dict(level="proof", engine="A", technique="Coq proof (pure Z) bc(result) <= prec for normalize/normalize1/from_man_exp/pos/mul; correspondence; bit-length monitor over public entry points with over-long arguments",
+ "C10": dict(level="proof", engine="A", technique="Coq proof bc(result) <= prec for normalize/normalize1/from_man_exp/pos/mul (pure Z) and, through the rounding theorems, add/sub/div/sqrt/mod/pow_int and complex add/sub/mul/div; correspondence; bit-length monitor over public entry points with over-long arguments",
    text="Every rounded return path of the model ends in normalize/normalize1/from_man_exp, which are proved to return at most prec bits for every input; the model is tied to the code by correspondence, and a monitor feeds arguments with more bits than the precision to ~150 public entry points.",
    note=TB_A + " Functions outside the model are observed, not proved; known over-long results are listed in known_findings.json."),
 }
@@ -29,8 +29,8 @@ CHECKS.update({
    text="mpf_pow_int is transliterated (loop = structural recursion on the bits of n) and run against the live code on bases/exponents on both sides of every switch; every clause of the property (directed results never past the exact power, exact powers exact, nearest within 1 ulp, few-bit powers correctly rounded, huge powers bracketed by integer log2 bounds) is decided exactly per case. The final rounding step is covered by the normalize theorems; the loop invariant theorem is not yet proved. Theorems: for every regular base, exponent, precision and mode, the n=1/n=2/man=1/bc*n<1000 branches equal the Flocq rounding of x^n (and x^n itself when it fits); the loop's running product stays below (above) the exact partial power by induction on the exponent bits, its bit-count bookkeeping is exact up to the tolerated off-by-one, so floor/ceiling/down/up results are never past x^n; for n<0 the (prec+5)-bit power with reciprocal_rnd followed by division is on the right side of 1/x^n. The one-ulp bound for nearest mode in the loop branch is decided by the oracle only (C03_nearest_partial states the proved part).",
    note=TB_A + " Not proved: the 1-ulp bound of the loop branch in nearest mode (oracle only); infinities/nan/zero bases are decided by correspondence and tables."),
  "C04": dict(level="proof", engine="A", technique="Coq/Flocq theorems (Props/C04.v): mpc add/sub/mul/mul_mpf/add_mpf are componentwise Flocq roundings of the exact complex result, square real part, structural equality; Gallina model of libmpc arithmetic in correspondence; componentwise correct rounding (add/sub/mul/square/mul_mpf/mul_int/pow n>=0) and 4-ulp modulus bound (div/reciprocal/negative powers) decided exactly; mpc operators and equality at API level",
-   text="Complex add/sub/mul/square/pow are compositions of exact products and one correctly rounded add per component in the model (normalize theorems apply); the model is tied to the code by correspondence and every generated case is decided by an exact-rational oracle, including the division family's error bound and exact equality with complex/int/float/mpf. Theorems in Props/C04.v state componentwise correct rounding of add, sub, mul, scaling and the real part of square for all regular components, precisions and modes, and that mpc equality is equality of both components.",
-   note=TB_A + " Division/reciprocal/negative-power error bounds are decided by the exact oracle, not by a theorem."),
+   text="Complex add/sub/mul/square/pow are compositions of exact products and one correctly rounded add per component in the model (normalize theorems apply); the model is tied to the code by correspondence and every generated case is decided by an exact-rational oracle, including the division family's error bound and exact equality with complex/int/float/mpf. Theorems in Props/C04.v state componentwise correct rounding of add, sub, mul, scaling and the real part of square for all finite components, precisions and modes, that mpc equality is equality of both components, and for division, reciprocal and modulus an exact structural statement (correctly rounded quotient / square root of the (prec+10)- resp. (prec+4)-bit truncations) together with an error bound relative to the modulus: each component of z/w within 3*2^(1-prec)*|z|/|w|, of 1/z within 3*2^(1-prec)/|z|, |z| within 3*2^-prec*|z| (Flocq relative-error lemma + Cauchy-Schwarz).",
+   note=TB_A + " Integer and negative powers, sqrt and mpf/mpc mixed division are decided by the exact oracle, not by a theorem."),
  "C05": dict(level="proof", engine="A", technique="Coq theorems (Props/C05.v): mpf_cmp returns the sign of the exact difference for all canonical finite operands, lt/le/gt/ge agree with the real order, nan unordered; mpf_hash = CPython's integer hash for integer-valued mpfs, the unique solution of h*2^k = m (mod 2^61-1) for dyadic rationals, mpc_hash(x,0) = mpf_hash x (pure Z, axiom-free); Gallina model of mpf_cmp/lt/le/gt/ge/eq, mpf_hash, mpc_hash in correspondence; exact-rational order oracle; hash agreement against the interpreter's hash() of int/float/complex",
    text="Comparison and hash routines are transliterated and tied by correspondence on same-top-bit, tiny-difference, cross-sign and special pairs; at API level every comparison across mpf/int/float/mpc/complex is decided against exact rationals and equal values are required to have equal hash(). Theorems in Props/C05.v: for all finite canonical operands mpf_cmp is the sign of the exact difference and mpf_lt/le/gt/ge hold exactly when the real-number relation holds (so the order inherits totality, antisymmetry and transitivity from the reals); nan is unordered. The hash theorems derive from 2^61 = 1 (mod 2^61-1) that mpf_hash follows the interpreter's rule hash(m/2^k) = m*(2^k)^-1 mod P for every finite value, hence equal numbers hash equally across int, mpf and real-valued mpc.",
    note=TB_A + " CPython's numeric hash is the reference (validated against the running interpreter on every run)."),
@@ -49,7 +49,7 @@ CHECKS.update({
  "C16": dict(level="proof", engine="A", technique="Coq theorems (Props/C16.v): three-valued interval comparisons are exactly the for-all / for-none statements over member reals; Gallina model of mpi_lt/le/gt/ge/eq in correspondence; three-valued semantics decided exactly from endpoints",
    text="The three-valued comparison functions are transliterated; since an interval relation holds for all/no member pairs iff it holds for the corresponding endpoints, each case is decided exactly; `in`, == and != at API level on touching, nested, infinite and point intervals. Theorems in Props/C16.v prove for finite endpoints that True means the relation holds for every pair of members, False for none, None otherwise.",
    note=TB_A),
- "C39": dict(level="proof", engine="A", technique="Coq theorems (Props/C39.v): 2^(mag-1) <= |x| < 2^mag for regular x (so |x| <= 2^mag <= 4|x|), isint characterisation, ldexp exact, nint_distance returns the nearest integer (|x-n| <= 1/2, half-integers away from zero) and the exact binary magnitude of the distance; Gallina model of mag/nint_distance/isint/isnpint/isinf/isnan/isnormal/isfinite/ldexp/frexp in correspondence through the public functions; specs decided exactly",
+ "C39": dict(level="proof", engine="A", technique="Coq theorems (Props/C39.v): 2^(mag-1) <= |x| < 2^mag for regular x (so |x| <= 2^mag <= 4|x|), isint characterisation, ldexp exact, frexp returns (m, e) with x = m*2^e and 1/2 <= |m| < 1, isnpint characterises non-positive integers, nint_distance returns the nearest integer (|x-n| <= 1/2, half-integers away from zero) and the exact binary magnitude of the distance; Gallina model of mag/nint_distance/isint/isnpint/isinf/isnan/isnormal/isfinite/ldexp/frexp in correspondence through the public functions; specs decided exactly",
    text="The helper functions are transliterated for mpf, mpc, int and mpq arguments and compared with the public functions; |x| <= 2^mag <= 4|x| (8|z| for complex), nearest-integer and distance exponent, and the classification tables are decided exactly for every generated value. Theorems in Props/C39.v hold for every regular mpf.",
    note=TB_A),
  "C40": dict(level="proof", engine="A", technique="Coq theorems (Props/C40.v, pure Z, axiom-free): of_hex(to_hex n) = n for all n >= 0; from_pickable(to_pickable x) = x for every tuple with non-negative mantissa (all canonical values incl. inf/nan); Gallina model of to_pickable/from_pickable (hex digit lists) in correspondence with real pickle round trips under every protocol; copy and matrix copy independence",
